@@ -83,12 +83,29 @@ def _choice(ch, a, size, replace, p, tag):
         out.append(items[sup[j]])
         if not replace:
             sup.pop(j)
-    return np.array(out).reshape(size)
+    if out:
+        arr = np.array(out)
+    elif items:
+        arr = np.empty((0,) + np.asarray(items[0]).shape, dtype=np.asarray(items[0]).dtype)
+    else:
+        arr = np.empty((0,))
+    shape = (size,) if isinstance(size, (int, np.integer)) else tuple(size)
+    return arr.reshape(shape + arr.shape[1:])  # like numpy: sampling happens along axis 0
+
+
+class _DevChooser:
+    """wraps a chooser so that every draw is tagged as a deviation point (for deviation-bounded exploration)."""
+
+    def __init__(self, ch):
+        self._ch = ch
+
+    def choose(self, k, tag=""):
+        return self._ch.choose(k, "dev:" + tag)
 
 
 class Owned:
-    def __init__(self, ch):
-        self.ch = ch
+    def __init__(self, ch, dev=False):
+        self.ch = _DevChooser(ch) if dev else ch
         self.saved = []
         self.trips = 0
 
